@@ -92,6 +92,10 @@ fn main() {
         "C06" => props::c06::run(&run),
         "C07" => props::c07::run(&run),
         "C08" => props::c08::run(&run),
+        "C19" => props::c19::run(&run),
+        "C04" => props::c04::run(&run),
+        "C05" => props::c05::run(&run),
+        "C13" => props::c13::run(&run),
         "C10" => props::c10::run(&run),
         "C11" => props::c11::run(&run),
         "C12" => props::c12::run(&run),
